@@ -1,7 +1,7 @@
 (* C04 — no session, proxy or work connection without valid client credentials.
    Only statements here; proofs live in Proofs/AuthProofs.v.  Every theorem is universally quantified over
    the hash H (md5 of token ++ decimal timestamp in the code), the OIDC token verifier [oidc]
-   (go-oidc's Verify: bearer token -> subject or error) and the server configuration c
+   (go-oidc's Verify: bearer token, time of the call -> subject or error; consulted on every message) and the server configuration c
    (method, token, additional scopes, pool bound, heartbeat timeout), and either over ALL states
    (stronger than reachable ones) or over all event histories [au_run evs au_init]. *)
 From FRP Require Import Model.Auth Proofs.AuthProofs.
@@ -28,14 +28,14 @@ Print Assumptions C04_bypass_needs_internal_and_flag.
 (* ... so a login from the network whose key does not match is refused in every state, whatever else it
    says (run id, client_spec, pool count ...), and the state is untouched *)
 Theorem C04_network_login_without_credential_refused : forall H oidc c s conn now gen l,
-  au_login_cred_ok H oidc c l = false ->
+  au_login_cred_ok H oidc c now l = false ->
   exists e, au_step H oidc c s (AuEFirst false conn now gen (AuFLogin l)) = (s, AuORefused (AuRLogin e)).
 Proof. exact au_network_login_refused. Qed.
 Print Assumptions C04_network_login_without_credential_refused.
 
 (* the same on the internal listener unless the flag is set *)
 Theorem C04_login_without_credential_refused : forall H oidc c s internal conn now gen l,
-  au_login_cred_ok H oidc c l = false -> internal && asp_always_pass (al_spec l) = false ->
+  au_login_cred_ok H oidc c now l = false -> internal && asp_always_pass (al_spec l) = false ->
   exists e, au_step H oidc c s (AuEFirst internal conn now gen (AuFLogin l)) = (s, AuORefused (AuRLogin e)).
 Proof. exact au_bad_login_refused. Qed.
 Print Assumptions C04_login_without_credential_refused.
@@ -50,26 +50,35 @@ Print Assumptions C04_other_first_message_refused.
 Theorem C04_ping_refreshes_only_if_valid : forall H oidc c s sid now key ts x,
   au_has_scope AuScHeartBeats (ac_scopes c) = true ->
   au_find_sid sid (at_sessions s) = Some x -> as_verifier x = AuConfigured ->
-  au_msg_cred_ok H oidc c (at_subjects s) key ts = false ->
+  au_msg_cred_ok H oidc c (at_subjects s) now key ts = false ->
   exists e, au_step H oidc c s (AuELater sid now (AuLPing key ts)) = (s, AuOPongErr e).
 Proof. exact au_bad_ping_no_refresh. Qed.
 Print Assumptions C04_ping_refreshes_only_if_valid.
 
 (* work connection naming an unknown run id: refused in every configuration *)
-Theorem C04_workconn_unknown_run_refused : forall H oidc c s internal conn now gen rid key ts,
+Theorem C04_workconn_unknown_run_refused : forall H oidc c s internal conn now gen rid key ts plug,
   au_find_rid rid (at_sessions s) = None ->
-  au_step H oidc c s (AuEFirst internal conn now gen (AuFWorkConn rid key ts)) = (s, AuORefused AuRWorkUnknownRun).
+  au_step H oidc c s (AuEFirst internal conn now gen (AuFWorkConn rid key ts plug)) = (s, AuORefused AuRWorkUnknownRun).
 Proof. exact au_workconn_unknown_refused. Qed.
 Print Assumptions C04_workconn_unknown_run_refused.
 
-(* NewWorkConns scope on: a work connection without the credential is refused *)
-Theorem C04_workconn_without_credential_refused : forall H oidc c s internal conn now gen rid key ts x,
+(* NewWorkConns scope on: a work connection is refused when what the server plugin chain RETURNS for it lacks
+   the credential — whatever the peer originally sent (verification is not done on the original message) *)
+Theorem C04_workconn_without_credential_refused : forall H oidc c s internal conn now gen rid key ts plug key' ts' x,
   au_has_scope AuScNewWorkConns (ac_scopes c) = true ->
   au_find_rid rid (at_sessions s) = Some x -> as_verifier x = AuConfigured ->
-  au_msg_cred_ok H oidc c (at_subjects s) key ts = false ->
-  exists e, au_step H oidc c s (AuEFirst internal conn now gen (AuFWorkConn rid key ts)) = (s, AuORefused (AuRWorkAuth e)).
+  au_plug_apply plug key ts = Some (key', ts') ->
+  au_msg_cred_ok H oidc c (at_subjects s) now key' ts' = false ->
+  exists e, au_step H oidc c s (AuEFirst internal conn now gen (AuFWorkConn rid key ts plug)) = (s, AuORefused (AuRWorkAuth e)).
 Proof. exact au_bad_workconn_refused. Qed.
 Print Assumptions C04_workconn_without_credential_refused.
+
+(* a plugin chain that rejects (or fails) refuses the work connection *)
+Theorem C04_workconn_plugin_reject_refused : forall H oidc c s internal conn now gen rid key ts plug x,
+  au_find_rid rid (at_sessions s) = Some x -> au_plug_apply plug key ts = None ->
+  au_step H oidc c s (AuEFirst internal conn now gen (AuFWorkConn rid key ts plug)) = (s, AuORefused AuRWorkPlugin).
+Proof. exact au_workconn_plugin_reject_refused. Qed.
+Print Assumptions C04_workconn_plugin_reject_refused.
 
 (* whatever is answered with a refusal (LoginResp error, StartWorkConn error, silent close, Pong error,
    NewProxyResp error) leaves the complete server state as it was ... *)
@@ -94,14 +103,14 @@ Print Assumptions C04_refused_attempt_erasable.
 (* ---- statements over all histories that need the reachable-state invariant ------------------------------ *)
 
 (* history form: every session of a reachable state stems from a Login event of the history that either carried
-   the credential or came through the internal listener with the flag set; the session keeps that login
+   the credential (valid at the time of that event) or came through the internal listener with the flag set; the session keeps that login
    message (with the run id filled in) and the listener kind *)
 Theorem C04_session_has_verified_login_event : forall H oidc c evs x,
   In x (at_sessions (au_run H oidc c evs au_init)) ->
   exists internal conn now gen l0,
     In (AuEFirst internal conn now gen (AuFLogin l0)) evs /\
     as_login x = au_effective_login l0 gen /\ as_internal x = internal /\
-    (au_login_cred_ok H oidc c l0 = true \/ (internal = true /\ asp_always_pass (al_spec l0) = true)).
+    (au_login_cred_ok H oidc c now l0 = true \/ (internal = true /\ asp_always_pass (al_spec l0) = true)).
 Proof. exact au_session_has_login_event. Qed.
 Print Assumptions C04_session_has_verified_login_event.
 
@@ -113,7 +122,7 @@ Theorem C04_ping_refresh_implies_valid : forall H oidc c evs e x x',
   as_sid x' = as_sid x -> as_last_ping x' <> as_last_ping x ->
   exists now key ts, e = AuELater (as_sid x) now (AuLPing key ts) /\ as_last_ping x' = now /\
     (as_verifier x = AuAlwaysPass \/ au_has_scope AuScHeartBeats (ac_scopes c) = false \/
-     au_msg_cred_ok H oidc c (at_subjects (au_run H oidc c evs au_init)) key ts = true).
+     au_msg_cred_ok H oidc c (at_subjects (au_run H oidc c evs au_init)) now key ts = true).
 Proof. exact au_ping_refresh_implies_valid. Qed.
 Print Assumptions C04_ping_refresh_implies_valid.
 
@@ -123,21 +132,23 @@ Theorem C04_invalid_pings_do_not_keep_alive : forall H oidc c s x pings now,
   au_has_scope AuScHeartBeats (ac_scopes c) = true ->
   au_find_sid (as_sid x) (at_sessions s) = Some x -> as_verifier x = AuConfigured ->
   Forall (fun e => exists now' k ts, e = AuELater (as_sid x) now' (AuLPing k ts) /\
-                                     au_msg_cred_ok H oidc c (at_subjects s) k ts = false) pings ->
+                                     au_msg_cred_ok H oidc c (at_subjects s) now' k ts = false) pings ->
   au_hb_expired c now x = true ->
   forall y, In y (at_sessions (au_run H oidc c (pings ++ [AuECheck now]) s)) -> as_sid y <> as_sid x.
 Proof. exact au_invalid_pings_do_not_keep_alive. Qed.
 Print Assumptions C04_invalid_pings_do_not_keep_alive.
 
-(* a connection enters a session's pool only through a NewWorkConn naming that session's run id which the
-   session's verifier accepts *)
+(* a connection enters a session's pool only through a NewWorkConn naming that session's run id whose
+   plugin-chain output the session's verifier accepts at that time *)
 Theorem C04_workconn_pooled_only_if_known_and_valid : forall H oidc c evs e x x' cn,
   In x (at_sessions (au_run H oidc c evs au_init)) ->
   In x' (at_sessions (au_run H oidc c (evs ++ [e]) au_init)) ->
   as_sid x' = as_sid x -> In cn (as_pool x') -> ~ In cn (as_pool x) ->
-  exists internal now gen key ts, e = AuEFirst internal cn now gen (AuFWorkConn (as_rid x) key ts) /\
+  exists internal now gen key0 ts0 plug key ts,
+    e = AuEFirst internal cn now gen (AuFWorkConn (as_rid x) key0 ts0 plug) /\
+    au_plug_apply plug key0 ts0 = Some (key, ts) /\
     (as_verifier x = AuAlwaysPass \/ au_has_scope AuScNewWorkConns (ac_scopes c) = false \/
-     au_msg_cred_ok H oidc c (at_subjects (au_run H oidc c evs au_init)) key ts = true).
+     au_msg_cred_ok H oidc c (at_subjects (au_run H oidc c evs au_init)) now key ts = true).
 Proof. exact au_workconn_pooled_implies_known_and_valid. Qed.
 Print Assumptions C04_workconn_pooled_only_if_known_and_valid.
 
@@ -168,7 +179,7 @@ Print Assumptions C04_session_table_keyed.
 
 (* ---- the hypotheses are satisfiable: a concrete history (toy hash H(tok,ts) = tok ++ [ts], token "t") ------ *)
 Definition c04ex_H (tok : bytes) (ts : Z) : bytes := tok ++ [byte_of_Z ts].
-Definition c04ex_oidc (k : bytes) : option bytes := match k with [] => None | _ => Some k end.
+Definition c04ex_oidc (k : bytes) (now : Z) : option bytes := match k with [] => None | _ => if now <? 100 then Some k else None end.
 Definition c04ex_cfg := {| ac_method := AuToken; ac_token := [x74]; ac_scopes := [AuScHeartBeats; AuScNewWorkConns];
                            ac_max_pool := 5; ac_hb_timeout := 90 |}.
 Definition c04ex_good := {| al_rid := []; al_key := [x74; x07]; al_ts := 7; al_user := []; al_pool := 1;
@@ -179,8 +190,8 @@ Definition c04ex_hist :=
   [AuEFirst false 0 0 [x61] (AuFLogin c04ex_good);                 (* accepted from the network: session "a" *)
    AuEFirst false 1 1 [x62] (AuFLogin c04ex_claim);                (* the network claims the bypass: refused *)
    AuEFirst true 2 2 [x63] (AuFLogin c04ex_claim);                 (* internal listener + flag: session "c" *)
-   AuEFirst false 3 3 [] (AuFWorkConn [x61] [x74; x08] 8);         (* valid work connection for "a": pooled *)
-   AuEFirst false 4 4 [] (AuFWorkConn [x61] [] 8);                 (* no key: refused *)
+   AuEFirst false 3 3 [] (AuFWorkConn [x61] [x74; x08] 8 AuPlugSame);         (* valid work connection for "a": pooled *)
+   AuEFirst false 4 4 [] (AuFWorkConn [x61] [] 8 AuPlugSame);                 (* no key: refused *)
    AuELater 0 5 (AuLNewProxy [x70] true true);                     (* proxy "p" on session 0 *)
    AuELater 0 6 (AuLPing [x00] 9);                                 (* invalid ping: no refresh *)
    AuELater 0 7 (AuLPing [x74; x09] 9)].                           (* valid ping: refresh *)
@@ -202,6 +213,25 @@ Proof. vm_compute. split; reflexivity. Qed.
 Example C04_ex_expiry :
   let s := au_run c04ex_H c04ex_oidc c04ex_cfg c04ex_hist au_init in
   exists x, au_find_sid 0 (at_sessions s) = Some x /\ as_verifier x = AuConfigured /\
-            au_msg_cred_ok c04ex_H c04ex_oidc c04ex_cfg (at_subjects s) [x00] 9 = false /\
+            au_msg_cred_ok c04ex_H c04ex_oidc c04ex_cfg (at_subjects s) 8 [x00] 9 = false /\
             au_hb_expired c04ex_cfg 98 x = true.
 Proof. vm_compute. eexists. repeat split. Qed.
+
+(* OIDC, a token that expires (valid while now < 100), and a plugin that invalidates a good key *)
+Definition c04ex_cfg_oidc := {| ac_method := AuOidc; ac_token := []; ac_scopes := [AuScNewWorkConns; AuScHeartBeats];
+                                ac_max_pool := 5; ac_hb_timeout := 90 |}.
+Definition c04ex_hist2 :=
+  [AuEFirst false 0 0 [x61] (AuFLogin {| al_rid := []; al_key := [x6a]; al_ts := 0; al_user := []; al_pool := 0;
+                                          al_spec := {| asp_type := []; asp_always_pass := false |} |});
+   AuEFirst false 1 50 [] (AuFWorkConn [x61] [x6a] 0 AuPlugSame);                   (* token still valid: pooled *)
+   AuEFirst false 2 150 [] (AuFWorkConn [x61] [x6a] 0 AuPlugSame);                  (* same raw token after expiry: refused *)
+   AuELater 0 151 (AuLPing [x6a] 0);                                                (* and in a ping: refused *)
+   AuEFirst false 3 60 [] (AuFWorkConn [x61] [x6a] 0 (AuPlugRewrite [] 0));         (* plugin blanks a good key: refused *)
+   AuEFirst false 4 60 [] (AuFWorkConn [x61] [] 0 (AuPlugRewrite [x6a] 0));         (* plugin supplies a good key: pooled *)
+   AuEFirst false 5 60 [] (AuFWorkConn [x61] [x6a] 0 AuPlugReject)].                (* plugin rejects: refused *)
+
+Example C04_ex_trace_expiry_and_plugin :
+  au_trace c04ex_H c04ex_oidc c04ex_cfg_oidc c04ex_hist2 au_init =
+  [AuOLoginOk [x61] 0; AuOWorkPooled; AuORefused (AuRWorkAuth AuErrOidcInvalid); AuOPongErr AuErrOidcInvalid;
+   AuORefused (AuRWorkAuth AuErrOidcInvalid); AuOWorkPooled; AuORefused AuRWorkPlugin].
+Proof. vm_compute. reflexivity. Qed.
